@@ -193,6 +193,37 @@ static void make_hostile_header(rng_t *r, hin_t *h, int ep) {
             STAT_INC("c14_dict_wrapping_count_inputs");
             break;
         }
+        if (rng_chance(r, 1, 3)) {
+            /* a well-formed dictionary whose size sits exactly at an index-width boundary, with some indices replaced
+             * by the largest values their width can hold, the dictionary size itself and its neighbours */
+            static const size_t sizes[] = {255, 256, 257, 65535, 65536, 65537, 1, 2};
+            size_t u = sizes[rng_below(r, rng_chance(r, 1, 4) ? 8 : 3)];
+            size_t nv = u + 1 + rng_below(r, 40);
+            uint64_t *vals = malloc(nv * 8);
+            for (size_t i = 0; i < nv; i++) vals[i] = (i < u ? i : rng_below(r, u)) * 7 + 3;
+            free(h->b);
+            h->b = malloc(scratch_size(nv) + 64);
+            size_t full = varintDictEncode(h->b, vals, nv);
+            free(vals);
+            uint64_t ds, tmp;
+            size_t off = (size_t)ref_tagged_read(h->b, &ds);
+            for (uint64_t i = 0; i < ds; i++) off += (size_t)ref_tagged_read(h->b + off, &tmp);
+            off += (size_t)ref_tagged_read(h->b + off, &tmp);
+            unsigned w = (unsigned)ref_bytes_needed(ds - 1);
+            if (w == 0) w = 1;
+            size_t nidx = (full - off) / w;
+            int edits = 1 + (int)rng_below(r, 3);
+            for (int e = 0; e < edits && nidx; e++) {
+                size_t at = rng_chance(r, 1, 3) ? nidx - 1 : rng_below(r, nidx);
+                uint64_t cands[5] = {~0ULL, ds, ds - 1, ds + 1, (1ULL << (8 * w - 1))};
+                uint64_t x = cands[rng_below(r, 5)];
+                for (unsigned b = 0; b < w; b++) h->b[off + at * w + b] = (uint8_t)(x >> (8 * b));
+            }
+            n = full;
+            h->nvals = nv; /* so that the output capacity given to DecodeInto is the declared count */
+            STAT_INC("c14_dict_boundary_size_with_extreme_indices");
+            break;
+        }
         uint64_t ds = rng_chance(r, 1, 2) ? rng_below(r, 5) : huge[rng_below(r, 11)];
         n += put_tagged(h->b + n, ds);
         size_t ne = ds < 5 ? (size_t)ds : rng_below(r, 4);
@@ -222,6 +253,48 @@ static void make_hostile_header(rng_t *r, hin_t *h, int ep) {
         break;
     }
     case EP_BITMAP: {
+        if (rng_chance(r, 1, 3)) {
+            /* complete-looking containers the encoder never produces: any type with any declared cardinality and a
+             * payload long enough for it (array containers above 4096 members, bitmaps with a wrong count, ...) */
+            static const uint32_t cards[] = {0, 1, 4095, 4096, 4097, 4098, 5000, 8192, 32768, 65535, 65536, 65537, 70000};
+            uint32_t card = cards[rng_below(r, sizeof cards / sizeof cards[0])];
+            unsigned type = (unsigned)rng_below(r, 3);
+            free(h->b);
+            h->b = calloc(1, 16 + (size_t)card * 4 + 8192);
+            h->b[0] = (uint8_t)type;
+            memcpy(h->b + 1, &card, 4);
+            n = 5;
+            if (type == 0) {
+                bool sorted = rng_chance(r, 3, 4);
+                uint32_t v = (uint32_t)rng_below(r, 3);
+                for (uint32_t i = 0; i < card; i++) {
+                    uint16_t x = sorted ? (uint16_t)v : (uint16_t)rng_next(r);
+                    memcpy(h->b + n, &x, 2);
+                    n += 2;
+                    v += card <= 65536 && card ? (65536 - 3) / (card ? card : 1) : 1;
+                    if (v > 65535) v = 65535;
+                }
+            } else if (type == 1) {
+                rng_fill(r, h->b + n, 8192);
+                n += 8192;
+            } else {
+                uint32_t runs = card ? 1 + (uint32_t)rng_below(r, card < 5000 ? card : 5000) : 0;
+                memcpy(h->b + n, &runs, 4);
+                n += 4;
+                uint32_t v = 0;
+                for (uint32_t i = 0; i < runs; i++) {
+                    uint16_t a = (uint16_t)v, b2 = (uint16_t)(v + rng_below(r, 20));
+                    memcpy(h->b + n, &a, 2);
+                    memcpy(h->b + n + 2, &b2, 2);
+                    n += 4;
+                    v = b2 + 2 + (uint32_t)rng_below(r, 10);
+                    if (v > 65535) v = 65535;
+                }
+            }
+            if (rng_chance(r, 1, 4) && n > 6) n -= 1 + rng_below(r, 3); /* or a little short */
+            STAT_INC("c14_bitmap_complete_looking_containers");
+            break;
+        }
         h->b[0] = (uint8_t)(rng_chance(r, 3, 4) ? rng_below(r, 3) : rng_next(r));
         uint32_t card = (uint32_t)(rng_chance(r, 1, 2) ? huge[rng_below(r, 11)] : rng_below(r, 70000));
         memcpy(h->b + 1, &card, 4);
